@@ -106,16 +106,19 @@ def run(tier):
             # names that live in the schema: the same module from the introspection-JSON rendering of the schema
             if pos in ("response_field", "id_field", "input_field", "oneof_member", "enum_value") and (klass != "keyword_variant" or tier == "thorough"):
                 mods.append({"name": name, "class": klass, "pos": pos, "schema": schema, "doc": doc, "fmt": "json"})
-    resps = generate([gen_request(m["schema"].sdl() if m["fmt"] == "sdl" else m["schema"].introspection(), gql.render_doc(m["doc"]), DEFAULT_OPTS,
+            # positions whose Rust identifier goes through the normalization: also under normalization = rust
+            if pos in ("enum_value", "oneof_member", "variable", "input_field"):
+                mods.append({"name": name, "class": klass, "pos": pos, "schema": schema, "doc": doc, "fmt": "sdl", "norm": "rust"})
+    resps = generate([gen_request(m["schema"].sdl() if m["fmt"] == "sdl" else m["schema"].introspection(), gql.render_doc(m["doc"]), dict(DEFAULT_OPTS, normalization=m.get("norm", "none")),
                                   ext="graphql" if m["fmt"] == "sdl" else "json") for m in mods])
     farm = Farm("c11")
     for m, r in zip(mods, resps):
-        m["label"] = {"name": m["name"], "class": m["class"], "position": m["pos"], "schema_format": m["fmt"], "schema": m["schema"].sdl(), "query": gql.render_doc(m["doc"])}
+        m["label"] = {"name": m["name"], "class": m["class"], "position": m["pos"], "schema_format": m["fmt"], "normalization": m.get("norm", "none"), "schema": m["schema"].sdl(), "query": gql.render_doc(m["doc"])}
         sigs = set()
         if m["pos"] != "enum_value" and not snake_ident_ok(m["name"]):
             sigs.add("snake_case_not_an_identifier")
-        if m["pos"] == "enum_value" and m["name"] == "_":
-            sigs.add("snake_case_not_an_identifier")
+        if m["pos"] == "enum_value" and (m["name"] == "_" or (m.get("norm") == "rust" and not snake_ident_ok(m["name"]))):
+            sigs.add("snake_case_not_an_identifier")  # (enum values are CamelCased under normalization = rust: same defect)
         if m["pos"] == "oneof_member" and m["name"] == "Self":
             sigs.add("oneof_member_is_keyword_after_camel_case")
         m["sigs"] = sigs
